@@ -206,6 +206,22 @@ func cmdCheck(args []string) {
 			unsupported = append(unsupported, r.key+": "+r.err.Error())
 			continue
 		}
+		// Obligations after an undischarged invariant / precondition obligation of the same function were
+		// proved assuming it: they are only conditionally discharged and must not be claimed. (Implicit
+		// safety obligations do not taint: if one fails the program panics there and later points are
+		// not reached on that path.)
+		sorted := append([]*Oblig{}, r.vc.obligs...)
+		sortObligs(sorted)
+		tainted := false
+		for _, o := range sorted {
+			if tainted && o.Status == "unsat" {
+				o.Status = "conditional"
+				o.Solver = "proved only under an undischarged earlier invariant/precondition obligation"
+			}
+			if !tainted && (o.Kind == "inv-entry" || o.Kind == "inv-keep" || o.Kind == "pre") && o.Status != "unsat" {
+				tainted = true
+			}
+		}
 		for _, o := range r.vc.obligs {
 			if r.mode == "sweep" && !isSafetyKind(o.Kind) {
 				continue
